@@ -299,6 +299,16 @@ Fixpoint omap {A B} (f : A -> option B) (l : list A) : option (list B) :=
               end
   end.
 
+(* every name, key and value of an election (what the recorded finding c11_linebreak_in_string looks at) *)
+Definition dict_strings (d : dict) : list str := flat_map (fun kv => [fst kv; snd kv]) d.
+Definition election_strings (e : election) : list str :=
+  dict_strings (e_meta e)
+  ++ flat_map (fun p => p_name p :: p_cats p ++ p_targets p ++ dict_strings (p_meta p)) (e_projects e)
+  ++ flat_map (fun b => dict_strings (b_meta b)) (e_ballots e).
+Definition nolb (s : str) : bool := forallb (fun c => negb (is_linebreak c)) s.
+(* no string of the election contains a line-break character *)
+Definition no_linebreak_election (e : election) : bool := forallb nolb (election_strings e).
+
 Section RowLevel.
 Variable show_num : Q -> str.
 Variable read_num : str -> option Q.
@@ -469,6 +479,55 @@ Fixpoint parse_loop (sec : section) (header : list str) (st : pstate) (rows : li
       end
   end.
 
+(* The loop as it is EXECUTED (and extracted): identical to [parse_loop] above except that a new ballot is put in
+   front of the list, which is reversed once at the end ([parse_rows]); linear instead of quadratic in the number
+   of votes.  Proofs/PabulibP.v (parse_loop_acc_spec, parse_rows_spec) shows that the result is unchanged; the
+   theorems are stated about [parse_rows] and proved through [parse_loop]. *)
+Fixpoint parse_loop_acc (sec : section) (header : list str) (st : pstate) (rows : list (list str))
+  : option pstate :=
+  match rows with
+  | [] => Some st
+  | row :: rest =>
+      if is_blank_row row then parse_loop_acc sec header st rest
+      else match row with
+      | [] => None
+      | c0 :: _ =>
+          match section_of c0 with
+          | Some sec' =>
+              match rest with
+              | [] => None                                  (* next(reader) raises StopIteration *)
+              | h :: rest' => parse_loop_acc sec' h st rest'
+              end
+          | None =>
+              match sec with
+              | SecNone => parse_loop_acc sec header st rest
+              | SecMeta =>
+                  match row with
+                  | k :: v :: _ =>
+                      parse_loop_acc sec header
+                        (mkPstate (dict_set (strip k) (strip v) (ps_meta st)) (ps_projects st) (ps_ballots st))
+                        rest
+                  | _ => None                               (* IndexError: row[1] *)
+                  end
+              | SecProjects =>
+                  match parse_project_row header row with
+                  | Some p =>
+                      parse_loop_acc sec header
+                        (mkPstate (ps_meta st) (add_project p (ps_projects st)) (ps_ballots st)) rest
+                  | None => None
+                  end
+              | SecVotes =>
+                  match parse_vote_row header (ps_meta st) (ps_projects st) row with
+                  | Some b =>
+                      parse_loop_acc sec header
+                        (mkPstate (ps_meta st) (ps_projects st) (b :: ps_ballots st)) rest
+                  | None => None
+                  end
+              end
+          end
+      end
+  end.
+
 (* instance.meta.get(key) followed by int()/str_as_frac(); Some None = key absent; None = raises *)
 Definition get_nat (k : str) (m : dict) : option (option nat) :=
   match lookup k m with
@@ -516,8 +575,11 @@ Definition finish (st : pstate) : option election :=
        | Ordinal => mk None None None None None None
        end)))))))))))).
 
+Definition rev_ballots (st : pstate) : pstate :=
+  mkPstate (ps_meta st) (ps_projects st) (rev (ps_ballots st)).
+
 Definition parse_rows (rows : list (list str)) : option election :=
-  obind (parse_loop SecNone [] (mkPstate [] [] []) rows) finish.
+  obind (parse_loop_acc SecNone [] (mkPstate [] [] []) rows) (fun st => finish (rev_ballots st)).
 
 (* ------------------------------------------------------------------------------------------- *)
 (* Writer (election_as_pabulib_string before csv.writer; natsort of the rows not modelled)        *)
